@@ -486,8 +486,18 @@ func checkC09(c CaseC09, x *hx.Ctx) *hx.Failure {
 	}
 	nt, labels := spliceNT(&c.Splice)
 	var hist []string
-	cleared := false
+	cleared, reencoded := false, false
 	for _, mu := range c.Muts {
+		if mu.Kind == 39 {
+			// encode now, verify, and keep editing the same object afterwards
+			hist = append(hist, "UpdateData()")
+			if f := c09VerifyEncoding(st, c, fmt.Sprintf("path %s, noise %#x, after %v", c.Path, c.Noise, hist)); f != nil {
+				return f
+			}
+			before = clone(st.sig.Data())
+			reencoded = true
+			continue
+		}
 		if h := c09Apply(st, mu); h != "" {
 			hist = append(hist, h)
 			if !mu.B && (mu.Kind == 3 || mu.Kind == 6 || mu.Kind == 14 || mu.Kind == 17 || mu.Kind == 19 || mu.Kind == 37 || mu.Kind == 29) {
@@ -508,16 +518,24 @@ func checkC09(c CaseC09, x *hx.Ctx) *hx.Failure {
 	}
 	x.Label("path=" + c.Path)
 	x.LabelIf(len(hist) > 0, "setter-history")
+	x.LabelIf(reencoded, "encoded-more-than-once")
 	x.LabelIf(cleared, "flag-cleared-by-setter")
 	x.LabelIf(c.Noise != 0, "set-then-clear-noise")
 	x.LabelIf(!c09Decodable(&st.m), "time-less-form")
 
+	what := fmt.Sprintf("path %s, noise %#x, setters %v", c.Path, c.Noise, hist)
+	return c09VerifyEncoding(st, c, what)
+}
+
+// c09VerifyEncoding encodes the signal and compares bytes, structure, getters
+// and the decoded result with the model. It is called at the end of every
+// case and at every "encode now" step of a history.
+func c09VerifyEncoding(st *c09State, c CaseC09, what string) *hx.Failure {
 	// expected section
 	em := c09Normalise(st.m)
 	em.Adj = (st.adjusted - st.cmdPTSField()) & m33
 	want := em.Encode()
 	got := st.sig.UpdateData()
-	what := fmt.Sprintf("path %s, noise %#x, setters %v", c.Path, c.Noise, hist)
 	from, to := em.StuffingRange()
 	if !bytes.Equal(maskStuffing(got, from, to), maskStuffing(want, from, to)) {
 		return hx.Failf("encode", "UpdateData() differs from the canonical section of the field values at byte %d (%s)\n want %x\n got  %x", firstDiff(got, want), what, want, got)
